@@ -2288,7 +2288,7 @@ func writePcaps(pcapDir string, packets []pcapOverIPPacket) ([]string, error) {
 		for i, packet := range packets {
 			if packet.linkType != lt {
 				if nextStart == 0 {
-					if _, ok := handledLinkTypes[lt]; !ok {
+					if _, ok := handledLinkTypes[packet.linkType]; !ok {
 						nextStart = i
 					}
 				}
